@@ -359,7 +359,7 @@ fn main() {
         ptys: vec![("f64", run_agg_plain::<f64> as RunP), ("i32", run_agg_plain::<i32>), ("i64", run_agg_plain::<i64>)],
     };
     let pairs = Pairs { alpha: vec![None, Some(0.0), Some(1.0), Some(3.0)], max_len: run.pick(4, 5) };
-    let bools = Bools { max_len: run.pick(7, 9) };
+    let bools = Bools { max_len: run.pick(7, 11) };
     if let Some(path) = &run.replay {
         let stored = load_replay(path).unwrap_or_else(|e| {
             eprintln!("MACHINERY-ERROR: {e}");
